@@ -515,9 +515,11 @@ func coordinate(cfg *Config, tier string) int {
 	budget := *flagDeadline
 	if budget == 0 {
 		if tier == "quick" {
+			// the quick tier is sized for one to two minutes on an idle machine; the deadline is only a safety net and must not
+			// cut coverage silently when the machine is loaded (expiry still means exhaustive:false, exit 0)
 			budget = cfg.QuickDeadline
-			if budget == 0 {
-				budget = 6 * time.Minute
+			if budget < 20*time.Minute {
+				budget = 20 * time.Minute
 			}
 		} else {
 			budget = cfg.ThoroughDeadline
